@@ -13,7 +13,7 @@ def run(ctx):
     sfx = "" if q else "_thorough"
     ctx.cov["rule"] = (
         "cond-replay: every well-formed token list (<= N tokens over iftrue/iffalse/ifcase -1..2/or/else/fi/"
-        "plain/braces) that TLC prints with its expected delivery is run three ways (primitives, \\let-aliases, "
+        "plain/braces) that TLC prints with its expected delivery is run four ways (primitives, \\let-aliases on control sequences, on active characters, "
         "mixed); cond-events: random trees of depth 0..6 with \\ifnum/\\ifodd on boundary integers, unbalanced "
         "braces in bodies, decided by TLC (instances whose delivered text is brace-unbalanced are outside the "
         "property and counted as skipped); exp-replay / exp-events: token streams over 4 macros, \\expandafter, "
@@ -34,7 +34,7 @@ def run(ctx):
         if r["kind"] == "violation":
             nv += 1
             if nv <= 5:
-                ctx.violation(f"conditional: {r['program'][200:]!r} delivered {r['got']} {r['err']!r}, "
+                ctx.violation(f"conditional: {r['program'][430:]!r} delivered {r['got']} {r['err']!r}, "
                               f"TexCond says {r['want']}", r)
         else:
             ctx.add_bound("TexCond.replay", r["runs"], r["cases"])
@@ -46,7 +46,7 @@ def run(ctx):
         if v["key"] in ("illformed", "design-disagreement"):
             raise ToolError(f"generator/spec problem: {v['key']} on {e['program']}")
     nskip = judge_calls(ctx, bad, "Trace_TexCond", COND_DEVS,
-                        lambda e, v: f"conditional: {e['program'][200:]!r} delivered {e['out']} {e['err']!r}, "
+                        lambda e, v: f"conditional: {e['program'][430:]!r} delivered {e['out']} {e['err']!r}, "
                                      f"TexCond says {v.get('want')}")
     ctx.add_bound("TexCond.events", n - nskip, n - nskip, skipped_unbalanced_delivery=nskip)
     # ---------------- \expandafter / \noexpand -----------------------------------------
